@@ -72,6 +72,8 @@ func runC13(c *Ctx) {
 			var body *ssa.Function
 			if mc, ok := goI.Call.Value.(*ssa.MakeClosure); ok {
 				body = mc.Fn.(*ssa.Function)
+			} else if sc := goI.Call.StaticCallee(); sc != nil && len(sc.Blocks) > 0 {
+				body = sc // `go ec.method(dg)`
 			}
 			if body == nil {
 				c.R.Bad(pfx+"processDeferredGroup$go/one-result", c.ipos(goI), "goroutine body not found")
